@@ -330,11 +330,11 @@ def rule_echo(ck, consts):
             except SyntaxError:
                 continue
             e = expand_expr(ck.repo, hm, e)
-            if any(q.is_call(x, "len") and x.args and q.dotted(x.args[0]) == data for x in ast.walk(e)):
+            if data in q.names_in(e) and q.names_in(e) <= {data, "len", "bool"}:
                 try:
-                    lens = {k for k in lens if bool(q.fold(e, {data: "x" * k})) == pol}
+                    lens = {k for k in lens if bool(X.xfold(e, {data: "x" * k})) == pol}
                 except q.NotFoldable:
-                    raise AnalysisError("_handle_message: length guard %s of the close payload does not fold" % txt)
+                    raise AnalysisError("_handle_message: guard %s on the close payload does not fold" % txt)
         want = {2, 3, 4, 5, 6} if which == "code" else {3, 4, 5, 6}
         ck.ob(R, hm, node.ast, lens == want, "the close %s is taken exactly for payload lengths %s (of 0..6; got %s)" % (which, ">= 2" if which == "code" else "> 2", sorted(lens)),
               construct="close %s parsed for lengths %s" % (which, sorted(lens)))
@@ -350,9 +350,14 @@ def rule_teardown(ck, consts):
         if X.calls_in_node(n, "self.stream.close"):
             closed = True
         for c in X.calls_in_node(n, "self.stream.io_loop.add_timeout", "self.stream.io_loop.call_later"):
-            cb = c.args[1] if len(c.args) > 1 else None
+            cb = c.args[1] if len(c.args) > 1 else q.kwarg(c, "callback")
             stored = n.kind == "stmt" and isinstance(n.ast, ast.Assign) and WAIT in q.assigned_paths(n.ast)
-            armed = armed + ((q.dotted(cb) if cb is not None else None, stored),)
+            cbn = q.dotted(cb) if cb is not None else None
+            if isinstance(cb, ast.Lambda) and not cb.args.args and q.is_call(cb.body, "self._abort") and not cb.body.args:
+                cbn = "self._abort"
+            if isinstance(cb, ast.Call) and q.call_attr(cb) == "partial" and len(cb.args) == 1 and not cb.keywords:
+                cbn = q.dotted(cb.args[0])
+            armed = armed + ((cbn, stored),)
         for c in X.calls_in_node(n, "self.stream.io_loop.remove_timeout"):
             removed = removed or (len(c.args) == 1 and (q.dotted(c.args[0]) == WAIT or X.fold_in(c.args[0], env, None) == "TIMER-HANDLE"))
         for c in X.node_calls_all(n):
@@ -395,9 +400,18 @@ def rule_teardown(ck, consts):
                     ck.ob(R, cl, cl.node, cancelled, "%s: the periodic pinger is cancelled by close()" % label, construct="%s: pinger cancelled=%s" % (label, cancelled))
     # timer delay is a positive constant
     for c in q.find_calls(cl.node, "self.stream.io_loop.add_timeout"):
-        d = c.args[0] if c.args else None
-        ok = isinstance(d, ast.BinOp) and isinstance(d.op, ast.Add) and q.is_call(d.left, "self.stream.io_loop.time") and isinstance(d.right, ast.Constant) and isinstance(d.right.value, (int, float)) and d.right.value > 0
-        ck.ob(R, cl, c, ok, "the closing timeout is now + a positive constant")
+        d = c.args[0] if c.args else q.kwarg(c, "deadline")
+        for _ in range(3):  # an explaining local (`deadline = now + N`) stands for its single definition
+            if isinstance(d, ast.Name) and len(q.stores_to(cl.node, d.id)) == 1 and getattr(q.stores_to(cl.node, d.id)[0], "value", None) is not None:
+                d = q.stores_to(cl.node, d.id)[0].value
+        delay = None
+        if isinstance(d, ast.BinOp) and isinstance(d.op, ast.Add):
+            for now_, off in ((d.left, d.right), (d.right, d.left)):
+                if isinstance(now_, ast.Call) and q.call_attr(now_) == "time":
+                    delay = X.fold_in(off, consts, None)
+        if not isinstance(delay, (int, float)) or isinstance(delay, bool):
+            raise AnalysisError("close(): the deadline of the closing timer is not of the form <loop>.time() + <constant> (%s)" % (q.unparse(d) if d is not None else "?"))
+        ck.ob(R, cl, c, delay > 0, "the closing timeout is now + a positive constant (%r)" % (delay,))
     # delegates: local close hands code/reason down and drops the protocol reference
     for qn in ("WebSocketHandler.close", "WebSocketClientConnection.close"):
         fi = ck.func(W, qn)
@@ -419,16 +433,29 @@ def rule_ping_timeout(ck, consts):
     tests = [n for n in pp.cfg.stmt_nodes(lambda n: n.kind == "test") if canon_fact(n.ast, True)[0] == PONG]
     ck.floor(R, len(tests), 1, "tests of _received_pong in periodic_ping")
     tid = {n.id for n in tests}
-    ef = event_facts(pp, {"reset": lambda n: n.kind == "stmt" and isinstance(n.ast, ast.Assign) and PONG in q.assigned_paths(n.ast) and isinstance(n.ast.value, ast.Constant) and n.ast.value.value is False},
-                     {"reset": lambda n: n.id in tid}, cond_facts=False)
-    for t in tests:
-        ck.ob(R, pp, t.ast, ("@reset", True) in ef[t.id], "the pong flag is reset to False in every iteration before it is tested (a pong of an earlier round does not count)")
     pings = pp.cfg.find(lambda x: q.is_call(x, "self.write_ping"))
     ck.floor(R, len(pings), 1, "write_ping calls in periodic_ping")
-    # reset and ping are in the same synchronous section: no suspension between reset and ping
-    er = event_facts(pp, {"fresh": lambda n: n.kind == "stmt" and isinstance(n.ast, ast.Assign) and PONG in q.assigned_paths(n.ast)}, {"fresh": lambda n: n.suspends}, cond_facts=False)
-    for node, c in pings:
-        ck.ob(R, pp, c, ("@fresh", True) in er[node.id], "the flag is reset in the same synchronous section in which the ping is sent (a pong cannot be lost between reset and ping)")
+    ping_ids = {n.id for n, _c in pings}
+    is_reset = lambda n: n.kind == "stmt" and isinstance(n.ast, ast.Assign) and PONG in q.assigned_paths(n.ast) and isinstance(n.ast.value, ast.Constant) and n.ast.value.value is False
+
+    # per round (from one pong test to the next): the flag is reset, a ping is sent, and no suspension point lies
+    # between the two (in either order) - otherwise a pong could be lost or a stale one counted
+    def ptransfer(n, val):
+        r, p_, gap = val
+        if n.id in tid:
+            return (False, False, False)
+        if is_reset(n):
+            r = True
+        if n.id in ping_ids:
+            p_ = True
+        if n.suspends and (r != p_):
+            gap = True
+        return (r, p_, gap)
+
+    pseen = explore(pp.cfg, (False, False, False), ptransfer, lambda t: False, follow_exc=False)
+    for t in tests:
+        sts = {v for _f, v in pseen.get(t.id, ())}
+        ck.ob(R, pp, t.ast, bool(sts) and all(r and p_ and not gap for r, p_, gap in sts), "every time the pong flag is tested, the flag was reset and a ping was sent since the previous test, with no suspension point between reset and ping (states %s)" % sorted(sts))
     # missed pong -> close and stop
     def ut(n, u, env):
         closes, pings_after = u
